@@ -22,7 +22,8 @@ class Scripted:
     of x, so this is a function of x (any finite set of values/gradients at distinct points is the
     restriction of a smooth function).  After the script: a benign tail (lower value, flat slope)."""
 
-    def __init__(self, script, n, g0=None):
+    def __init__(self, script, n, g0=None, start_value=10.0):
+        self.start_value = float(start_value)
         self.script = [tuple(l) for l in script]
         self.memo = {}
         self.g0 = np.array(g0 if g0 is not None else [1.0, -2.0, 0.5, 1.5][:n], float)
@@ -34,7 +35,7 @@ class Scripted:
         v = self.memo.get(key)
         if v is None:
             if not self.memo:
-                v = (10.0, 1.0)                       # the start point
+                v = (self.start_value, 1.0)           # the start point
             elif self.k < len(self.script):
                 v = self.script[self.k]
                 self.k += 1
@@ -55,7 +56,7 @@ class Scripted:
 def make_problem(spec):
     if spec["family"] == "scripted":
         n = spec["n"]
-        sc = Scripted(spec["script"], n)
+        sc = Scripted(spec["script"], n, start_value=spec.get("start_value", 10.0))
         if spec.get("nobox"):
             lb, ub = np.full(n, -np.inf), np.full(n, np.inf)
         else:
@@ -126,6 +127,9 @@ def execute(spec, want_obs=False):
         val = f0 + ft[1] * max(f0 - fopt, 1e-3 * (1.0 + abs(f0)))
         # ft[1] = +0.5: above f(x0), met at once; -0.3: 30% of the way to the optimum; -2: unreachable
         ftarget = (lambda v=val: v) if ft[0] == "call" else val
+    if spec.get("ftarget_abs") is not None:      # absolute target (behaviours sampled from the design model)
+        kind, val = spec["ftarget_abs"]
+        ftarget = (lambda v=val: v) if kind == "call" else val
     gt = spec.get("gtol", ["float", 1e-5])
     gtol = (lambda v=gt[1]: v) if gt[0] == "call" else gt[1]
     cb = spec.get("cb")
